@@ -163,16 +163,26 @@ func (rs *reqState) decodeResponse(resp Response) *clientView {
 				cv.Raw = append(cv.Raw, o)
 			}
 		default:
-			msgs, rest := wire.ParseVarintDelimited(body)
-			cv.Trailing = rest
-			for _, p := range msgs {
+			// varint-delimited messages, one at a time, so that whatever is
+			// not one (the rendering of an error) is kept byte for byte
+			off := 0
+			for off < len(body) {
+				msgs, _ := wire.ParseVarintDelimited(body[off:])
+				if len(msgs) == 0 {
+					break
+				}
+				p := msgs[0]
 				m, err := unmarshalResp("proto", rs, p)
 				if err != nil {
-					cv.Trailing = append(append([]byte{}, p...), rest...)
 					break
 				}
 				cv.Msgs = append(cv.Msgs, m)
 				cv.Raw = append(cv.Raw, p)
+				off += len(wire.AppendVarintDelimited(nil, p))
+			}
+			cv.Trailing = body[off:]
+			if len(cv.Trailing) == 0 {
+				cv.Trailing = nil
 			}
 		}
 	case "ws":
